@@ -654,9 +654,17 @@ def ref_eval(p, state, args, kwargs=None, rctx=None, path=(), nlane=0):
             sa, sb = state.a, state.b
         else:
             sa = sb = state
-        ta = ref_eval(p.a, sa, rest, kwargs, rctx, path + (("br", 0),), nlane)
-        tb = ref_eval(p.b, sb, rest, kwargs, rctx, path + (("br", 1),), nlane)
-        return RefTr("cond", check=lift(check), trs=[ta, tb])
+        # support constraints of a branch only bind when that branch is the one taken
+        ca, cb = RefCtx(), RefCtx()
+        ta = ref_eval(p.a, sa, rest, kwargs, ca, path + (("br", 0),), nlane)
+        tb = ref_eval(p.b, sb, rest, kwargs, cb, path + (("br", 1),), nlane)
+        rctx.sites += ca.sites + cb.sites
+        chk = lift(check)
+        if chk.ndim == 0:
+            c = sj.unlog(chk.item())
+            rctx.support += [z3.Implies(c, z3.And(*ca.support))] if ca.support else []
+            rctx.support += [z3.Implies(z3.Not(c), z3.And(*cb.support))] if cb.support else []
+        return RefTr("cond", check=chk, trs=[ta, tb])
     raise ValueError(p.kind)
 
 
